@@ -1,30 +1,37 @@
 #!/bin/bash
 # usage: selftest/seed_eval.sh <Cxx> <A|B> [extra checks...]
-# 1. confirm the seeded change in its scratch worktree (tests pass, demo fails with / passes without)
-# 2. run ./check <Cxx> (quick) [+ extra checks] against the worktree with the patch applied (PYVC_REPO), undo
-# 3. keep the confirmed change under /verif/seeded/<Cxx>-<V>/
+# Re-confirm the seeded change /verif/seeded/<Cxx>-<V>/ in a scratch worktree of /repo (created under /tmp, removed at the end):
+#   1. the patch applies; the repository's test suite passes with it; the demonstration fails with it and passes without it
+#   2. ./check <Cxx> --tier quick [+ extra checks] is run against the worktree with the patch applied (PYVC_REPO; results go to
+#      /verif/.scratch, never to the committed evidence)
+#   3. meta.json is rewritten (what it breaks / needs: seeded/NEEDS.json; what was run; which obligations and checks fired)
+# Nothing is ever applied to /repo itself.
 P=$1; V=$2; shift 2
-WT=/tmp/seed/$P; OUT=/tmp/seed/${P}_out; PATCH=$OUT/$V.patch.diff; DEMO=$OUT/${V}_demo.py
+D=/verif/seeded/$P-$V; PATCH=$D/patch.diff; DEMO=$D/demo.py
 [ -f $PATCH ] || { echo "no patch $PATCH"; exit 9; }
-git -C $WT checkout -q -- . ; git -C $WT apply $PATCH || { echo "PATCH DOES NOT APPLY"; exit 9; }
+WT=$(mktemp -d /tmp/seedwt.XXXXXX); rmdir $WT
+git -C /repo worktree add -q --detach $WT HEAD || exit 9
+OUT=$(mktemp -d /tmp/seedout.XXXXXX)
+cleanup() { git -C /repo worktree remove --force $WT >/dev/null 2>&1; git -C /repo worktree prune; rm -rf $OUT; }
+trap cleanup EXIT
+git -C $WT apply $PATCH || { echo "PATCH DOES NOT APPLY"; exit 9; }
 T=$(cd $WT && /venv/bin/python -m pytest -q -p no:cacheprovider --timeout=900 2>&1 | tail -1)
-(cd /tmp && PYTHONPATH=$WT timeout 900 /venv/bin/python $DEMO >$OUT/${V}_with.out 2>&1); DW=$?
+(cd /tmp && PYTHONPATH=$WT timeout 900 /venv/bin/python $DEMO >$OUT/with.out 2>&1); DW=$?
 RES=""
 for C in $P "$@"; do
   s=$(date +%s); out=$(cd /verif && PYVC_REPO=$WT ./check $C --tier quick 2>&1); rc=$?; e=$(date +%s)
   RES="$RES$C:exit=$rc:wall=$((e-s))s;"
   echo "check $C exit=$rc wall=$((e-s))s"; echo "$out" | grep "VIOLATION\|UNDECIDED\|CHECKER-ERROR" | cut -c1-300 | head -5
-  echo "$out" | grep "VIOLATION\|UNDECIDED\|CHECKER-ERROR" | cut -c1-400 | head -12 > $OUT/${V}_check_$C.out
+  echo "$out" | grep "VIOLATION\|UNDECIDED\|CHECKER-ERROR" | cut -c1-400 | head -12 > $OUT/check_$C.out
 done
 git -C $WT checkout -q -- .
-(cd /tmp && PYTHONPATH=$WT timeout 900 /venv/bin/python $DEMO >$OUT/${V}_without.out 2>&1); DO=$?
+(cd /tmp && PYTHONPATH=$WT timeout 900 /venv/bin/python $DEMO >$OUT/without.out 2>&1); DO=$?
 echo "tests_with_change: $T"; echo "demo_with_change_exit: $DW   demo_without_change_exit: $DO"
-D=/verif/seeded/$P-$V; mkdir -p $D; cp $PATCH $D/patch.diff; cp $DEMO $D/demo.py
 python3 - <<PY
 import json, os, re
 caught = []
 for C in "$P $*".split():
-    f = "$OUT/${V}_check_%s.out" % C
+    f = "$OUT/check_%s.out" % C
     if os.path.exists(f):
         for l in open(f):
             m = re.search(r"VIOLATION property=(\S+) replay=\S+ obligation=(\S+)(.*)", l)
@@ -44,6 +51,7 @@ json.dump({"property": "$P", "variant": "$V", "breaks": needs.get("$P-$V", {}).g
  "needs_to_manifest": needs.get("$P-$V", {}).get("needs", ""),
  "tests_with_change": """$T""", "demo_exit_with_change": $DW, "demo_exit_without_change": $DO,
  "confirmed": ("45 passed" in """$T""") and $DW != 0 and $DO == 0, "checks": "$RES", "caught_by": caught,
- "ran": "scratch worktree $WT: git apply patch; full test suite; demo (PYTHONPATH=worktree); PYVC_REPO=<worktree> ./check <id> --tier quick; git checkout -- .; demo again"},
+ "ran": "scratch git worktree of /repo under /tmp: git apply patch.diff; full test suite; demo.py (PYTHONPATH=worktree); "
+        "PYVC_REPO=<worktree> ./check <id> --tier quick; git checkout -- .; demo.py again; worktree removed"},
  open("$D/meta.json", "w"), indent=1)
 PY
